@@ -113,10 +113,11 @@ Theorem C20_roles :
             end].
 Proof. exact c20_roles. Qed.
 
-(* the brute-force minimum used by the correspondence predicate is the minimum *)
+(* 7. the brute-force minimum used by the correspondence predicate (best_d2_tab: the 240 true
+      palette positions, tabulated once) is below the distance of every entry *)
 Theorem C20_bruteforce_is_minimum :
-  forall cube greys v m, (16 <= m < 256)%N -> best_d2 cube greys v <= d2 v (entry cube greys m).
-Proof. exact best_d2_spec. Qed.
+  forall v m, (16 <= m < 256)%N -> best_d2_tab v <= d2 v (entry xcube_z xgreys_z m).
+Proof. exact best_d2_tab_spec. Qed.
 
 Check C20_closest_256_exact_model :
   forall c : rgba,
